@@ -766,6 +766,44 @@ class Idioms3(ast.NodeTransformer):
                 return ast.copy_location(ast.BoolOp(
                     op=ast.Or() if fn == "any" else ast.And(),
                     values=vals), node)
+        # any(C(a, b) for a, b in [(x, 1), (y, 2)]) -> C(x, 1) or C(y, 2)
+        # (elements that are plain names/literals/attribute reads)
+        if fn in ("any", "all") and len(node.args) == 1 and \
+                not node.keywords and isinstance(
+                    node.args[0], (ast.GeneratorExp, ast.ListComp)) and len(
+                    node.args[0].generators) == 1:
+            g = node.args[0].generators[0]
+            it = g.iter
+
+            def plain(e):
+                return isinstance(e, (ast.Name, ast.Constant)) or (
+                    isinstance(e, ast.Attribute) and plain(e.value))
+            if not g.ifs and not g.is_async and isinstance(
+                    it, (ast.List, ast.Tuple)) and 1 <= len(
+                    it.elts) <= self.MAX:
+                maps = []
+                for e in it.elts:
+                    if isinstance(g.target, ast.Name) and plain(e):
+                        maps.append({g.target.id: e})
+                    elif isinstance(g.target, ast.Tuple) and isinstance(
+                            e, ast.Tuple) and len(e.elts) == len(
+                            g.target.elts) and all(
+                            isinstance(t, ast.Name)
+                            for t in g.target.elts) and all(
+                            plain(x) for x in e.elts):
+                        maps.append({t.id: x for t, x in zip(
+                            g.target.elts, e.elts)})
+                    else:
+                        maps = None
+                        break
+                if maps:
+                    vals = [self.visit(_SubstNames(m).visit(clone(
+                        node.args[0].elt))) for m in maps]
+                    if len(vals) == 1:
+                        return ast.copy_location(vals[0], node)
+                    return ast.fix_missing_locations(ast.copy_location(
+                        ast.BoolOp(op=ast.Or() if fn == "any" else ast.And(),
+                                   values=vals), node))
         # abs(<literal arithmetic>) -> the non-negative form
         if fn == "abs" and len(node.args) == 1 and not node.keywords:
             v = _closed_number(node.args[0])
@@ -5488,6 +5526,55 @@ def scalarise_local_tuples(fn):
                 for nm in names:
                     stores[nm] = 1
                 done = True
+    if done:
+        ast.fix_missing_locations(fn)
+    return done
+
+
+def inline_single_use_generators(fn):
+    """`g = (<generator>)` immediately followed by the one statement that
+    reads g, as the whole argument of any()/all()/sum()/list()/tuple()/
+    sorted()/set()/min()/max() -> the generator at that call"""
+    done = False
+    counts = {}
+    for n in ast.walk(fn):
+        if isinstance(n, ast.Name):
+            counts[n.id] = counts.get(n.id, 0) + 1
+    for par in [fn] + list(_walk_own(fn)):
+        for fld in ("body", "orelse", "finalbody"):
+            blk = getattr(par, fld, None)
+            if not isinstance(blk, list):
+                continue
+            i = 0
+            while i + 1 < len(blk):
+                st = blk[i]
+                if isinstance(st, ast.Assign) and len(st.targets) == 1 and \
+                        isinstance(st.targets[0], ast.Name) and isinstance(
+                            st.value, ast.GeneratorExp) and counts.get(
+                            st.targets[0].id) == 2:
+                    g = st.targets[0].id
+                    nx = blk[i + 1]
+                    heads = [nx] if not isinstance(
+                        nx, (ast.If, ast.While)) else [nx.test]
+                    if isinstance(nx, (ast.For, ast.With, ast.Try,
+                                       ast.FunctionDef, ast.ClassDef)):
+                        heads = []
+                    hit = None
+                    for h in heads:
+                        for c in ast.walk(h):
+                            if isinstance(c, ast.Call) and norm(c.func) in (
+                                    "any", "all", "sum", "list", "tuple",
+                                    "sorted", "set", "min", "max") and len(
+                                    c.args) == 1 and isinstance(
+                                    c.args[0], ast.Name) and \
+                                    c.args[0].id == g:
+                                hit = c
+                    if hit is not None:
+                        hit.args[0] = st.value
+                        del blk[i]
+                        done = True
+                        continue
+                i += 1
     if done:
         ast.fix_missing_locations(fn)
     return done
